@@ -9,15 +9,18 @@ VERIF = os.path.dirname(os.path.dirname(os.path.abspath(__file__)))
 sys.path.insert(0, VERIF)
 
 ALL = ["C%02d" % i for i in range(1, 21)]
+# checks that have been reviewed and integrated (builders' work in progress is not registered)
+READY_FILE = os.path.join(VERIF, "tools", "ready.txt")
 NOT_APPLICABLE = {}  # id -> reason, for properties no executable model can express (none so far)
 
 
 def main():
     checks, missing = [], []
     engines = {}
+    ready = set(open(READY_FILE).read().split())
     for pid in ALL:
         path = os.path.join(VERIF, "harness", "props", pid.lower() + ".py")
-        if not os.path.exists(path):
+        if pid not in ready or not os.path.exists(path):
             missing.append(pid)
             continue
         mod = importlib.import_module("harness.props." + pid.lower())
